@@ -131,6 +131,29 @@ M.contract(P_SDS + ':SandboxDs.__init__', params=dict(self=Inst(SandboxDs), dir_
                     'no-file-system-effect': lambda trace: trace == []},
            raises_only=())
 
+def construct_at_events(directory_root):
+    """the file-system effect of construct_at: exactly the documented directories, parents first"""
+    return [('mkdir', d) for d in layout_dirs(directory_root)]
+
+
+def happen(evts):
+    """call-site counterpart of a clause about the callee's own events: the events happen (they are appended to
+    the caller's ghost trace and applied to the ghost file system).  No native meaning."""
+    return True
+
+
+def _m_happen(interp, args, kwargs):
+    for e in args[0]:
+        if e[0] == 'mkdir':
+            fsmodel.declare_dir(interp, e[1])
+        else:
+            raise fsmodel.Unsupported('happen(): event kind %r' % (e[0],))
+        interp.st.emit(*e)
+    return True
+
+
+M.model(happen, _m_happen)
+
 M.contract(P_SDS + ':construct_at', params=dict(directory_root=Str), returns=SDS,
            setup=_declare_existing_dir('directory_root'),
            # a fresh sandbox root: an existing directory with nothing in it
@@ -138,10 +161,12 @@ M.contract(P_SDS + ':construct_at', params=dict(directory_root=Str), returns=SDS
                                            and not any(exists(d) for d in layout_dirs(directory_root)),
            event='construct_at',
            ensures={
-               'creates-exactly-the-documented-directories-parents-first': lambda directory_root, trace:
-               trace == [('mkdir', d) for d in layout_dirs(directory_root)],
-               'the-directories-exist-afterwards': lambda directory_root:
-               all(is_dir(d) for d in layout_dirs(directory_root)),
+               'creates-exactly-the-documented-directories-parents-first': (
+                   lambda directory_root, trace: trace == construct_at_events(directory_root), 'check'),
+               'the-directories-exist-afterwards': (
+                   lambda directory_root: all(is_dir(d) for d in layout_dirs(directory_root)), 'check'),
+               '(call sites: these events happen)': (
+                   lambda directory_root: happen(construct_at_events(directory_root)), 'effect'),
                'result-has-the-documented-layout': lambda directory_root, result: layout(result, directory_root),
            },
            raises_only=())
@@ -239,4 +264,215 @@ M.contract(P_EXE + ':execute',
            },
            raises={Exception: {'ensures': lambda old, trace: os.getcwd() == old and rmtree_events(trace) == []
                                                              and events(trace, 'partial-executor:raised') != []}},
+           raises_only=())
+
+
+# ============================================================================ environment mappings
+# The configured environ is an arbitrary mapping (an opaque object); `dict(m)` is assumed to return a NEW dict
+# with the items of m, `MappingProxyType(m)` a read-only view of m (DESIGN C04, assumed contracts).
+
+def _m_dict_copy(interp, self, args, kwargs):
+    c = new_opaque(interp, EnvMapI, 'dict-copy')
+    c._pv_ghost['copy_of'] = self
+    c._pv_ghost['is_dict'] = True
+    interp.st.emit('dict-copy', self, c)
+    return c
+
+
+class EnvMapI(Interface):
+    """a mapping of environment variables; nothing is known about its items"""
+    methods = {'__dict_copy__': Method(model=_m_dict_copy)}
+
+
+class RoViewI(Interface):
+    """a types.MappingProxyType"""
+    target_class = MappingProxyType
+
+
+def _m_mapping_proxy(interp, args, kwargs):
+    (m,) = args
+    if isinstance(m, fsmodel.SOpt):
+        m = interp.resolve(m)
+    v = new_opaque(interp, RoViewI, 'ro-view')
+    v._pv_ghost['view_of'] = m
+    return v
+
+
+M.model(MappingProxyType, _m_mapping_proxy)
+M.trust('dict(m) returns a new dict equal to m; types.MappingProxyType(m) is a read-only view of m')
+
+ENVIRON = Opt(Iface(EnvMapI))
+
+
+def is_fresh_copy(a, b):
+    """a is a dict of its own (not b itself) with the items of b"""
+    return type(a) is dict and a is not b and a == b
+
+
+def _m_is_fresh_copy(interp, args, kwargs):
+    a, b = [interp.resolve(x) if isinstance(x, fsmodel.SOpt) else x for x in args]
+    return (a is not b and getattr(a, '_pv_ghost', {}).get('is_dict') is True
+            and a._pv_ghost.get('copy_of') is b)
+
+
+M.model(is_fresh_copy, _m_is_fresh_copy)
+
+
+def is_read_only_view_of(v, m):
+    return type(v) is MappingProxyType and v == m
+
+
+def _m_is_read_only_view_of(interp, args, kwargs):
+    v, m = [interp.resolve(x) if isinstance(x, fsmodel.SOpt) else x for x in args]
+    return v is not m and getattr(v, '_pv_ghost', {}).get('view_of') is m
+
+
+M.model(is_read_only_view_of, _m_is_read_only_view_of)
+
+
+def none_or(x, pred):
+    return x is None or pred(x)
+
+
+# ============================================================================ partial_execution/impl/executor.py
+
+from exactly_lib.execution.configuration import ExecutionConfiguration
+from exactly_lib.execution.partial_execution.configuration import ConfPhaseValues, TestCase
+from exactly_lib.execution.partial_execution.impl.executor import _PartialExecutor, Configuration
+from exactly_lib.execution import phase_file_space
+from exactly_lib.test_case.phases.instruction_settings import InstructionSettings
+from exactly_lib.util.name_and_value import NameAndValue
+from exactly_lib.util.symbol_table import SymbolTable
+
+
+def _m_new_sandbox_root(interp, self, args, kwargs):
+    """the configured sds_root_dir_resolver: returns the name of a NEW, EMPTY directory (what
+    sandbox_dir_resolving.mk_tmp_dir_with_prefix is proved to do, given tempfile.mkdtemp)"""
+    return fsmodel.m_mkdtemp(interp, [], {'prefix': 'resolver'})
+
+
+class RootResolverI(Interface):
+    methods = {'__call__': Method(model=_m_new_sandbox_root)}
+
+
+class SymbolTableI(Interface):
+    target_class = SymbolTable
+    methods = {'copy': Method(returns=Iface(lambda: SymbolTableI), event='symbols-copy')}
+
+
+class MkSetupSettingsHandlerI(Interface):
+    methods = {'__call__': Method(returns=Any_, event='mk-setup-settings-handler')}
+
+
+EXE_CONF = Inst(ExecutionConfiguration,
+                _tuple=[ENVIRON,                    # environ
+                        Iface(RootResolverI),       # sds_root_dir_resolver
+                        Iface(SymbolTableI),        # predefined_symbols
+                        Opt(Any_),                  # exe_atc_and_skip_assertions
+                        Any_,                       # os_services
+                        Int,                        # mem_buff_size
+                        Any_,                       # default_environ_getter
+                        Opt(Int)])                  # timeout_in_seconds
+CONF_VALUES = Inst(ConfPhaseValues, _tuple=[Inst(NameAndValue, _tuple=[Str, Any_]), Any_])
+CONFIGURATION = Inst(Configuration, _tuple=[EXE_CONF, CONF_VALUES, Iface(MkSetupSettingsHandlerI)])
+TEST_CASE = Inst(TestCase, _tuple=[Any_, Any_, Any_, Any_, Any_])
+INSTRUCTION_SETTINGS = Inst(InstructionSettings, _environ=ENVIRON, _default_environ_getter=Any_,
+                            _timeout_in_seconds=Opt(Int))
+
+
+def _mk_executor(with_sds):
+    """a _PartialExecutor as __init__ leaves it (with_sds: after the sandbox has been constructed)"""
+
+    def mk(interp, name):
+        x = object.__new__(_PartialExecutor)
+        conf = CONFIGURATION.make(interp, name + '.conf')
+        x.conf = conf
+        x.exe_conf = conf[0]
+        x.conf_values = conf[1]
+        x._test_case = TEST_CASE.make(interp, name + '._test_case')
+        x._setup_settings_handler = Any_.make(interp, name + '._setup_settings_handler')
+        x._os_services = conf[0][4]
+        x._instruction_settings = INSTRUCTION_SETTINGS.make(interp, name + '._instruction_settings')
+        x._PartialExecutor__sandbox_directory_structure = SDS.make(interp, name + '.sds') if with_sds else None
+        x._phase_tmp_space_factory = None
+        x._action_to_check_outcome = None
+        return x
+
+    return Custom(mk)
+
+
+EXECUTOR_PRE_SDS = _mk_executor(False)
+EXECUTOR_POST_SDS = _mk_executor(True)
+
+M.contract('exactly_lib.execution.partial_execution.impl.act_helper:ActHelper.__init__', trusted=True,
+           params=dict(self=Any_, actor_name=Str, act_phase=Any_))
+M.trust('ActHelper.__init__ collects the act phase source: no effect on the file system, the current directory '
+        'or any environ (C01 contracts ActHelper)')
+
+
+def handler_environs(trace):
+    """the arguments mk_setup_settings_handler was called with"""
+    return [e[2][0] for e in trace if e[0] == 'mk-setup-settings-handler']
+
+
+M.contract(P_EXECUTOR + ':_PartialExecutor.__init__',
+           params=dict(self=Inst(_PartialExecutor), conf=CONFIGURATION, test_case=TEST_CASE), inline=True,
+           ensures={
+               'instruction-settings-environ-is-a-fresh-copy-of-the-configured': lambda self, conf:
+               (self._instruction_settings.environ() is None) if conf.exe_conf.environ is None
+               else is_fresh_copy(self._instruction_settings.environ(), conf.exe_conf.environ),
+               'setup-settings-environ-is-another-fresh-copy': lambda self, conf, trace:
+               len(handler_environs(trace)) == 1 and (
+                   (handler_environs(trace)[0] is None) if conf.exe_conf.environ is None
+                   else (is_fresh_copy(handler_environs(trace)[0], conf.exe_conf.environ)
+                         and handler_environs(trace)[0] is not self._instruction_settings.environ())),
+               'timeout-and-default-environ-getter-as-configured': lambda self, conf:
+               self._instruction_settings.timeout_in_seconds() == conf.exe_conf.timeout_in_seconds
+               and self._instruction_settings.default_environ_getter is conf.exe_conf.default_environ_getter,
+               'no-sandbox-yet': lambda self: self._sds is None,
+               'no-effect-on-file-system-or-cwd': lambda trace: events(trace, 'chdir', *FS_EVENTS) == [],
+           },
+           raises_only=())
+
+M.contract(P_EXECUTOR + ':_PartialExecutor._env_vars__read_only',
+           params=dict(self=EXECUTOR_PRE_SDS), inline=True,
+           ensures={'read-only-view-of-the-instruction-settings-environ-or-none': lambda self, result:
+           (result is None) if self._instruction_settings.environ() is None
+           else is_read_only_view_of(result, self._instruction_settings.environ())},
+           raises_only=())
+
+M.contract(P_EXECUTOR + ':_PartialExecutor._construct_and_set_sds',
+           params=dict(self=EXECUTOR_PRE_SDS), inline=True,
+           ensures={
+               'sandbox-is-built-in-the-new-empty-directory-of-the-resolver': lambda self, trace:
+               [e[0] for e in trace][:3] == ['mkdtemp', 'resolve', 'construct_at']
+               and trace[1][1] == trace[0][1] and trace[2][1]['directory_root'] == trace[1][2]
+               and trace[3:] == construct_at_events(trace[1][2]),
+               'has-the-documented-layout': lambda self, trace: layout(self._sds, trace[1][2]),
+           },
+           raises_only=())
+
+M.contract(P_EXECUTOR + ':_PartialExecutor._set_cwd_to_act_dir',
+           params=dict(self=EXECUTOR_POST_SDS), inline=True,
+           setup=lambda interp, args, ghosts: fsmodel.declare_dir(interp, args['self']._sds.act_dir._s),
+           requires=lambda self: is_dir(self._sds.act_dir),
+           ensures={'cwd-is-act': lambda self: os.getcwd() == str(self._sds.act_dir),
+                    'one-chdir': lambda self, trace: trace == [('chdir', str(self._sds.act_dir))]},
+           raises_only=())
+
+M.contract(P_EXECUTOR + ':_PartialExecutor._setup_post_sds_environment',
+           params=dict(self=EXECUTOR_PRE_SDS), event='SDS',
+           ensures={
+               'sandbox-constructed': lambda self: self._sds is not None,
+               'fresh-sandbox-with-the-documented-layout': lambda self, trace:
+               [e[0] for e in trace][:3] == ['mkdtemp', 'resolve', 'construct_at']
+               and trace[1][1] == trace[0][1] and trace[2][1]['directory_root'] == trace[1][2]
+               and layout(self._sds, trace[1][2]),
+               'starts-with-act-as-current-directory': lambda self: os.getcwd() == str(self._sds.act_dir),
+               'exactly-one-chdir': lambda self, trace: events(trace, 'chdir') == [('chdir', str(self._sds.act_dir))],
+               'tmp-file-space-is-rooted-at-internal-tmp': lambda self:
+               str(self._phase_tmp_space_factory._root_dir) == str(self._sds.internal_tmp_dir),
+               'no-file-system-effect-besides-construction': lambda trace:
+               events(trace, *FS_EVENTS) == [trace[0]] + construct_at_events(trace[1][2]),
+           },
            raises_only=())
